@@ -207,11 +207,13 @@ func (a *Analyzer) exprText(instr ssa.Instruction) string {
 						return clip(a.nodeText(e))
 					}
 				case *ast.AssignStmt:
-					if e.TokPos == pos {
+					// go/ssa positions the arithmetic of `x op= y` at the
+					// start of the statement
+					if _, isBin := instr.(*ssa.BinOp); e.TokPos == pos || (isBin && e.Pos() == pos && e.Tok != token.ASSIGN && e.Tok != token.DEFINE) {
 						return clip(a.nodeText(e))
 					}
 				case *ast.IncDecStmt:
-					if e.TokPos == pos {
+					if _, isBin := instr.(*ssa.BinOp); e.TokPos == pos || (isBin && e.Pos() == pos) {
 						return clip(a.nodeText(e))
 					}
 				case *ast.UnaryExpr:
